@@ -246,6 +246,7 @@ def prefixes(role):
             'Sta2': [], 'Sta3': [p(c.RQ_SPEC)], 'Sta6': est,
             'Sta6-midmsg': est + [p(PART1)],
             'Sta7': est + [u(c.REL_RQ)], 'Sta8': est + [p(c.REL_RQ)],
+            'Sta7-midmsg': est + [p(PART1), u(c.REL_RQ)],
             'Sta10': est + [u(c.REL_RQ), p(c.REL_RQ)],
             'Sta12': est + [u(c.REL_RQ), p(c.REL_RQ), p(c.REL_RP)],
             'Sta13-rejected': [p(c.RQ_SPEC), u(c.RJ_SPEC)],
@@ -256,6 +257,7 @@ def prefixes(role):
         'Sta1': [], 'Sta5': [u(c.RQ_SPEC)], 'Sta6': est,
         'Sta6-sending': est + [{'a': 'user', 'msg': USER_MSG3}],
         'Sta7': est + [u(c.REL_RQ)], 'Sta8': est + [p(c.REL_RQ)],
+        'Sta7-midmsg': est + [p(PART1), p(PART2), u(c.REL_RQ)],
         'Sta9': est + [u(c.REL_RQ), p(c.REL_RQ)],
         'Sta11': est + [u(c.REL_RQ), p(c.REL_RQ), u(c.REL_RP)],
         'Sta13-aborted': est + [u(c.ABORT_SU)],
@@ -277,7 +279,7 @@ def alphabet_after(role, prefix):
 def run(ctx):
     warnings.simplefilter('ignore')
     depth = 4 if ctx.thorough else 2
-    ctx.rule = ('exhaustive DFS of all histories of up to %d further steps from each of 19 canonical prefixes that '
+    ctx.rule = ('exhaustive DFS of all histories of up to %d further steps from each of 21 canonical prefixes that '
                 'reach every protocol state (both roles), over the alphabet {7 PDU kinds, complete / first / '
                 'continuing / last P-DATA fragments, unknown PDU type, peer close, each arriving after quiescence '
                 'or back-to-back, 2 s and 11.5 s time advances, every user primitive legal in the model state incl. '
